@@ -60,6 +60,9 @@ pub fn mk_config(layout: &str, o: &Opts, xdg: &Path) -> Config {
     let mut c = Config::default();
     let l = CString::new(layout).unwrap();
     let d = CString::new(DATA_DIR).unwrap();
+    // the order in which a front-end calls the setters must not matter: half of the option space sets ANSI before English
+    let ansi_first = o.smart_quote != o.numpad;
+    if ansi_first { c.set_ansi_encoding(o.ansi); }
     unsafe {
         assert!(riti_config_set_layout_file(&mut c, l.as_ptr()), "layout path rejected: {}", layout);
         assert!(riti_config_set_database_dir(&mut c, d.as_ptr()));
@@ -73,7 +76,7 @@ pub fn mk_config(layout: &str, o: &Opts, xdg: &Path) -> Config {
     c.set_fixed_old_reph(o.old_reph);
     c.set_fixed_numpad(o.numpad);
     c.set_fixed_old_kar_order(o.kar_order);
-    c.set_ansi_encoding(o.ansi);
+    if !ansi_first { c.set_ansi_encoding(o.ansi); }
     c.set_smart_quote(o.smart_quote);
     c
 }
